@@ -22,6 +22,8 @@ type Witness struct {
 
 type Obligation struct {
 	Name      string
+	Group     string  // obligations of one group share Common and are solved incrementally
+	Common    []*Term // hypotheses shared by the whole group
 	Hyps      []*Term
 	Goal      *Term
 	Pos       string
@@ -73,20 +75,20 @@ type Finding struct {
 }
 
 type Check struct {
-	Prop      string
-	Tier      string
-	Seed      int64
-	Timeout   int
-	WorkDir   string
-	Obls      []*Obligation
-	Results   []*ObResult
-	Assume    []string
-	Trusted   []string
-	FUC       map[string]bool
-	Start     time.Time
-	Inlined   map[string]bool
-	Notes     []string
-	NeedTwo   bool
+	Prop       string
+	Tier       string
+	Seed       int64
+	Timeout    int
+	WorkDir    string
+	Obls       []*Obligation
+	Results    []*ObResult
+	Assume     []string
+	Trusted    []string
+	FUC        map[string]bool
+	Start      time.Time
+	Inlined    map[string]bool
+	Notes      []string
+	NeedTwo    bool
 	Exhaustive bool
 }
 
@@ -129,137 +131,193 @@ func parseGetValue(out string) map[string]string {
 	return m
 }
 
+type batch struct {
+	name  string
+	idx   []int // indices into c.Obls
+	body  string
+	bytes int
+}
+
+// Run discharges all obligations: obligations of one Group share their Common hypotheses and are
+// sent to the solvers as one incremental script (push/pop per goal).
 func (c *Check) Run() {
-	// terms are hash-consed in a global table that is not thread safe:
-	// render sequentially, solve in parallel.
-	var wg sync.WaitGroup
-	workers := 12
 	c.Results = make([]*ObResult, len(c.Obls))
-	sem := make(chan struct{}, workers)
+	groups := map[string][]int{}
+	var order []string
 	for i, o := range c.Obls {
-		i := i
-		r := c.prepare(o)
+		r := &ObResult{Ob: o}
 		c.Results[i] = r
-		if r.Status != "" {
+		if o.EngineErr != "" {
+			r.Status, r.Output = "engine-error", o.EngineErr
 			continue
 		}
+		q := c.query(o)
+		if q == TFalse {
+			if o.ExpectSat {
+				r.Status, r.Output = "cover-failed", "cover condition is syntactically unsatisfiable"
+			} else {
+				r.Status, r.Solver = "proved", "engine-simplifier"
+				if o.Bounded > 0 {
+					r.Status = "bounded"
+				}
+			}
+			continue
+		}
+		g := o.Group
+		if g == "" {
+			g = "solo:" + o.Name
+		}
+		if _, ok := groups[g]; !ok {
+			order = append(order, g)
+		}
+		groups[g] = append(groups[g], i)
+	}
+	// render sequentially (term table is not thread-safe), solve in parallel
+	var batches []*batch
+	for _, g := range order {
+		idx := groups[g]
+		const chunk = 120
+		for k := 0; k < len(idx); k += chunk {
+			end := k + chunk
+			if end > len(idx) {
+				end = len(idx)
+			}
+			b := &batch{name: sanitize(g), idx: idx[k:end]}
+			if k > 0 {
+				b.name += fmt.Sprintf(".part%d", k/chunk)
+			}
+			first := c.Obls[b.idx[0]]
+			sc := &Script{Asserts: []*Term{And(first.Common...)}, Comment: []string{"group " + g}}
+			for n, i := range b.idx {
+				o := c.Obls[i]
+				var as []*Term
+				if o.ExpectSat {
+					as = append(append(as, o.Hyps...), o.Goal)
+				} else {
+					as = append(append(as, o.Hyps...), Not(o.Goal))
+				}
+				sc.Goals = append(sc.Goals, GoalPart{Asserts: as, Tag: fmt.Sprintf("%d %s", n, o.Name)})
+			}
+			var err interface{}
+			func() {
+				defer func() { err = recover() }()
+				b.body = sc.Render(theoryAxioms)
+			}()
+			if err != nil || len(b.body) > 24<<20 {
+				for _, i := range b.idx {
+					c.Results[i].Status = "engine-error"
+					c.Results[i].Output = fmt.Sprint("render: ", err, " size=", len(b.body))
+				}
+				continue
+			}
+			b.bytes = len(b.body)
+			batches = append(batches, b)
+		}
+	}
+	var wg sync.WaitGroup
+	sem := make(chan struct{}, 6)
+	for _, b := range batches {
+		b := b
 		wg.Add(1)
 		sem <- struct{}{}
 		go func() {
 			defer wg.Done()
 			defer func() { <-sem }()
-			c.solve(r)
+			br := solveBatch(c.WorkDir, b.name, b.body, len(b.idx), c.Timeout, c.NeedTwo)
+			for n, i := range b.idx {
+				r := c.Results[i]
+				o := r.Ob
+				r.Solver, r.Secs, r.SMTBytes = br.Solver[n], br.Secs/float64(len(b.idx)), b.bytes/len(b.idx)
+				r.SMTFile = filepath.Join(c.WorkDir, b.name+"."+orStr(br.Solver[n], "z3-new")+".smt2")
+				r.Output = br.Status[n]
+				switch br.Status[n] {
+				case "unsat":
+					if o.ExpectSat {
+						r.Status = "cover-failed"
+					} else if o.Bounded > 0 {
+						r.Status = "bounded"
+					} else {
+						r.Status = "proved"
+					}
+				case "sat":
+					if o.ExpectSat {
+						r.Status = "cover-ok"
+					} else {
+						r.Status = "violated"
+					}
+				case "error":
+					r.Status = "engine-error"
+					r.Output = br.Err
+				default:
+					r.Status = "undischarged"
+					r.Output = "solvers answered: " + br.Status[n] + " " + br.Err
+					if o.ExpectSat {
+						r.Status = "cover-failed"
+					}
+				}
+			}
+		}()
+	}
+	wg.Wait()
+	// second pass: witness values for violated obligations (single-goal queries with get-value)
+	type wjob struct {
+		r    *ObResult
+		body string
+		tail string
+	}
+	var jobs []wjob
+	for _, r := range c.Results {
+		if r.Status != "violated" || len(r.Ob.Witnesses) == 0 || len(jobs) >= 40 {
+			continue
+		}
+		o := r.Ob
+		sc := &Script{Asserts: []*Term{c.query(o)}, Comment: []string{"witness query for " + o.Name}}
+		var wn []string
+		for _, w := range o.Witnesses {
+			wv := Var("w!"+w.Name, w.T.S)
+			sc.Asserts = append(sc.Asserts, Eq(wv, w.T))
+			wn = append(wn, smtSym("w!"+w.Name))
+		}
+		var body string
+		func() {
+			defer func() { recover() }()
+			body = sc.Render(theoryAxioms)
+		}()
+		if body != "" {
+			jobs = append(jobs, wjob{r, body, "(get-value (" + strings.Join(wn, " ") + "))\n"})
+		}
+	}
+	for _, j := range jobs {
+		j := j
+		wg.Add(1)
+		sem <- struct{}{}
+		go func() {
+			defer wg.Done()
+			defer func() { <-sem }()
+			sr := solveWithTail(c.WorkDir, sanitize(j.r.Ob.Name)+".witness", j.body, j.tail, c.Timeout, false)
+			if sr.Status == "sat" {
+				j.r.Witness = parseGetValue(sr.Output)
+				j.r.SMTFile = filepath.Join(c.WorkDir, sanitize(j.r.Ob.Name)+".witness."+sr.Solver+".smt2")
+				j.r.Output = truncate(sr.Output, 3000)
+			}
 		}()
 	}
 	wg.Wait()
 }
 
-type prepared struct {
-	body, tail, name string
+func orStr(a, b string) string {
+	if a != "" {
+		return a
+	}
+	return b
 }
 
-var prep = map[*ObResult]*prepared{}
-var prepMu sync.Mutex
-
-func (c *Check) prepare(o *Obligation) *ObResult {
-	r := &ObResult{Ob: o}
-	if o.EngineErr != "" {
-		r.Status = "engine-error"
-		r.Output = o.EngineErr
-		return r
-	}
-	hyp := And(o.Hyps...)
-	var q *Term
+func (c *Check) query(o *Obligation) *Term {
+	hyp := And(append(append([]*Term(nil), o.Common...), o.Hyps...)...)
 	if o.ExpectSat {
-		q = And(hyp, o.Goal)
-	} else {
-		q = And(hyp, Not(o.Goal))
+		return And(hyp, o.Goal)
 	}
-	if q == TFalse {
-		if o.ExpectSat {
-			r.Status = "cover-failed"
-			r.Output = "cover condition is syntactically unsatisfiable"
-			return r
-		}
-		r.Status = "proved"
-		if o.Bounded > 0 {
-			r.Status = "bounded"
-		}
-		r.Solver = "engine-simplifier"
-		return r
-	}
-	sc := &Script{Asserts: []*Term{q}, Comment: []string{"obligation " + o.Name, "position " + o.Pos}}
-	var wnames []string
-	for _, w := range o.Witnesses {
-		wv := Var("w!"+w.Name, w.T.S)
-		sc.Asserts = append(sc.Asserts, Eq(wv, w.T))
-		wnames = append(wnames, smtSym("w!"+w.Name))
-	}
-	var body string
-	func() {
-		defer func() {
-			if e := recover(); e != nil {
-				r.Status = "engine-error"
-				r.Output = fmt.Sprint("render: ", e)
-			}
-		}()
-		body = sc.Render(theoryAxioms)
-	}()
-	if r.Status != "" {
-		return r
-	}
-	if len(body) > 4<<20 {
-		r.Status = "engine-error"
-		r.Output = fmt.Sprintf("VC exceeds size cap: %d bytes", len(body))
-		return r
-	}
-	r.SMTBytes = len(body)
-	tail := ""
-	if len(wnames) > 0 {
-		tail = "(get-value (" + strings.Join(wnames, " ") + "))\n"
-	}
-	prepMu.Lock()
-	prep[r] = &prepared{body: body, tail: tail, name: sanitize(o.Name)}
-	prepMu.Unlock()
-	return r
-}
-
-func (c *Check) solve(r *ObResult) {
-	prepMu.Lock()
-	p := prep[r]
-	delete(prep, r)
-	prepMu.Unlock()
-	o := r.Ob
-	sr := solveWithTail(c.WorkDir, p.name, p.body, p.tail, c.Timeout, c.NeedTwo)
-	r.Solver, r.Secs, r.Output = sr.Solver, sr.Secs, sr.Output
-	r.SMTFile = filepath.Join(c.WorkDir, p.name+"."+sr.Solver+".smt2")
-	if sr.Solver == "" {
-		r.SMTFile = filepath.Join(c.WorkDir, p.name+".z3-new.smt2")
-	}
-	switch sr.Status {
-	case "unsat":
-		if o.ExpectSat {
-			r.Status = "cover-failed"
-		} else if o.Bounded > 0 {
-			r.Status = "bounded"
-		} else {
-			r.Status = "proved"
-		}
-	case "sat":
-		if o.ExpectSat {
-			r.Status = "cover-ok"
-		} else {
-			r.Status = "violated"
-			r.Witness = parseGetValue(sr.Output)
-		}
-	case "error":
-		r.Status = "engine-error"
-	default:
-		r.Status = "undischarged"
-		if o.ExpectSat {
-			r.Status = "cover-failed"
-		}
-	}
+	return And(hyp, Not(o.Goal))
 }
 
 // ---------- known findings ----------
@@ -368,6 +426,7 @@ func (c *Check) Finish() int {
 	var viol []*ObResult
 	var known []string
 	knownNames := map[string]bool{}
+	knownSeen := map[string]bool{}
 	discharged, claimed, boundedN, maxBound, covers := 0, 0, 0, 0, 0
 	var samples []map[string]interface{}
 	for _, r := range c.Results {
@@ -391,7 +450,10 @@ func (c *Check) Finish() int {
 			covers++
 		default:
 			if f := matchFinding(findings, c.Prop, r.Ob.Name); f != nil && r.Status != "engine-error" && r.Status != "cover-failed" {
-				known = append(known, fmt.Sprintf("KNOWN-FINDING: property=%s %s %s", c.Prop, r.Ob.Name, f.What))
+				if !knownSeen[f.Obligation] {
+					knownSeen[f.Obligation] = true
+					known = append(known, fmt.Sprintf("KNOWN-FINDING: property=%s %s %s", c.Prop, f.Obligation, f.What))
+				}
 				knownNames[r.Ob.Name] = true
 				continue
 			}
@@ -465,8 +527,8 @@ func (c *Check) Finish() int {
 	b, _ := json.MarshalIndent(ev, "", " ")
 	os.MkdirAll(filepath.Join(verifDir, "evidence"), 0o755)
 	os.WriteFile(filepath.Join(verifDir, "evidence", c.Prop+".json"), b, 0o644)
-	fmt.Printf("govc %s [%s]: %d obligations claimed, %d proved, %d bounded, %d covers ok, %d known findings, %d failing; %.1fs wall, %.1fs solver\n",
-		c.Prop, c.Tier, claimed, discharged, boundedN, covers, len(known), len(viol), time.Since(c.Start).Seconds(), solverSecs)
+	fmt.Printf("govc %s [%s]: %d obligations claimed, %d proved, %d bounded, %d covers ok, %d obligations under known findings, %d failing; %.1fs wall, %.1fs solver\n",
+		c.Prop, c.Tier, claimed, discharged, boundedN, covers, len(knownNames), len(viol), time.Since(c.Start).Seconds(), solverSecs)
 	// prune work dir: keep failing SMT files and the sampled ones
 	keep := map[string]bool{}
 	for _, r := range viol {
